@@ -46,6 +46,7 @@ var hostileNames = []taggedArg{
 	{"../../HEAD", []string{"name:escapes-refs", "ref-name-hostile"}},
 	{"../../index", []string{"name:escapes-refs", "ref-name-hostile"}},
 	{".hidden", []string{"name:dot-leading"}},
+	{"HEAD", []string{"name:HEAD"}},
 	{"x: y", []string{"name:has-colon-space"}},
 	{"a b", []string{"name:has-space"}},
 	{"x\ny", []string{"name:has-newline", "ref-name-hostile"}},
@@ -133,7 +134,7 @@ func c03Steps(full bool) func(n *Node) []Step {
 			}
 		}
 		for _, s := range []Step{Run("add", "a"), Run("add", "d"), Run("add", "nope"), Run("rm", "a"), Run("rm", "nope"),
-			Run("restore", "a"), Run("restore", "--staged", "a"), Run("restore", "nope"), Run("commit", "-m", "m"), Run("write-tree")} {
+			Run("restore", "a"), Run("restore", "--staged", "a"), Run("restore", "--staged", "d"), Run("restore", "nope"), Run("commit", "-m", "m"), Run("write-tree")} {
 			add(s)
 		}
 		if full {
@@ -178,7 +179,7 @@ func c03Invariant(pre, post *Abs, st *Step) []Violation {
 
 func checkC03(e *RunEnv) *CheckResult {
 	spec := &Spec{
-		Seeds: allSeeds(),
+		Seeds: append(allSeeds(), Seed{"dir-becomes-file", append(seedS1(), Rmdir("d"), Write("d", "now a file\n"), Run("add", "d"))}),
 		Depth: e.pick(3, 4),
 		Steps: c03Steps(e.Thorough()),
 		CheckTrans: func(c *Ctx, pre *Node, st Step, res *Result, post *State) ([]Violation, bool) {
